@@ -954,21 +954,26 @@ def assemble(repo, unit_path, extra_header=""):
     # build text + line map
     line = 1
     linemap = {}
+    blank = {}
     seg_first_line = []
     for sg in segs:
         seg_first_line.append(line)
         lines = sg.text.split("\n")
-        for n, _ in enumerate(lines):
+        for n, piece in enumerate(lines):
             gl = line + n
             org = sg.origin
             if org[0] == "src":
                 val = ("src", org[1], org[2] + (n if len(org) == 3 else 0))
             else:
                 val = org
-            # a later segment on the same generated line overrides only if current is raw/sep
             prev = linemap.get(gl)
-            if prev is None or prev[0] == "raw" or (prev[0] == "src" and val[0] == "ins"):
+            rank = {"raw": 0, "src": 1, "ins": 2}
+            if prev is None:
                 linemap[gl] = val
+                blank[gl] = not piece.strip()
+            elif piece.strip() and (blank.get(gl) or rank[val[0]] > rank[prev[0]]):
+                linemap[gl] = val
+                blank[gl] = False
         line += len(lines) - 1
     gen.text = "".join(sg.text for sg in segs)
     gen.linemap = linemap
